@@ -51,7 +51,7 @@ def gen(rng):
     for i in range(n):
         tdir, top, _u = rng.choice(locs)
         nm = 'e%d' % i
-        loc = (L['home'] + '/w/' + nm) if top is None else (top + '/docs/' + nm)
+        loc = (L['home'] + '/w/' + nm) if top is None else (L['work'][top] + '/' + nm)
         pv = TG.pct(loc if top is None else loc[len(top) + 1:])
         r = rng.random()
         base = now.replace(microsecond=0)
